@@ -354,6 +354,9 @@ def sessions(draw):
         # the signals watch every symbol from the start, whatever the traded universe contains at the time
         cfg['signal_universe'] = {'kind': 'static', 'assets': ['EQ:' + s for s in names]}
         lab = lab + ['signals_watch_a_wider_universe']
+    if draw(st.sampled_from([False, False, False, True])):
+        cfg['extra_clock_events'] = True
+        lab = lab + ['clock_with_pre_and_post_market_events']
     return {'cfg': cfg, 'market': mk, 'labels': lab + (['gappy_market'] if gappy else ['dense_market']),
             'rerun_shared': draw(st.booleans())}
 
